@@ -126,6 +126,10 @@ func (encryptor *MySQLTokenizeQuery) OnBind(ctx context.Context, statement sqlpa
 		case *sqlparser.SQLVal:
 			var err error
 			index, err := mysql.ParsePlaceholderIndex(value)
+			if err == encryptor_base.ErrInvalidPlaceholder {
+				// a literal: OnQuery has rewritten it in the statement the database prepared
+				continue
+			}
 			if err != nil {
 				return values, false, err
 			}
